@@ -12,6 +12,8 @@ def fold(n, env):
         return None
     if n.k in REF_KINDS and n.n in env:
         return env[n.n]
+    if n.k == 'ArraySubscriptExpr' and n.text() in env:
+        return env[n.text()]
     if n.v is not None and n.k not in ('BinaryOperator', 'UnaryOperator', 'ConditionalOperator'):
         return n.v
     if n.k == 'UnaryOperator' and n.o == '!':
